@@ -129,6 +129,15 @@ class Utils:
             return -1.0
 
     @staticmethod
+    def compare_versions(a: str, b: str) -> int:
+        '''Compares two version strings.  Dot-separated decimal versions are compared numerically, component by component (so that 10.0 > 9.9); anything else falls back to string comparison.  Returns -1, 0, or 1.'''
+        if re.match(r'^\d+(\.\d+)*$', a) and re.match(r'^\d+(\.\d+)*$', b):
+            an = [int(x) for x in a.split('.')]
+            bn = [int(x) for x in b.split('.')]
+            return (an > bn) - (an < bn)
+        return (a > b) - (a < b)
+
+    @staticmethod
     def parse_host_and_port(host_and_port: str, default_port: int = 22) -> Tuple[str, int]:
         '''Parses a string into a tuple of its host and port.  The port is 0 if not specified.'''
         host = host_and_port
